@@ -390,13 +390,17 @@ class Parser:
     def parse_prefix_expression(self, stream: TokenStream) -> Expression:
         tok = stream.next_token()
         assert tok.type_ == TokenType.NOT
-        return PrefixExpression(
-            tok,
-            operator="!",
-            right=self.parse_filter_expression(
-                stream, precedence=self.PRECEDENCE_PREFIX
-            ),
-        )
+        right = self.parse_filter_expression(stream, precedence=self.PRECEDENCE_PREFIX)
+
+        # Logical not applies to a query, a function call or a parenthesized
+        # expression. Not to a literal or another logical not.
+        if not isinstance(right, (FilterQuery, FunctionExtension, FilterExpression)):
+            raise JSONPathSyntaxError(
+                "unexpected operand for logical not", token=right.token
+            )
+
+        self._raise_for_non_logical(right)
+        return PrefixExpression(tok, operator="!", right=right)
 
     def parse_infix_expression(
         self, stream: TokenStream, left: Expression
